@@ -253,7 +253,7 @@ def check_ebb3_min_version(ck, eng):
                     isinstance(node.ctx, ast.Store):
                 stores.append((m, node))
     ck.saw('version_parsed_stores', ['%s:%d' % (m.qualname, n.lineno) for m, n in stores])
-    ck.floor('stores to version_parsed', len(stores), 2)
+    ck.floor('stores to version_parsed', len(stores), 1)
 
 
 # ---------------------------------------------------------------------------- D2-D4 connect
